@@ -8,8 +8,6 @@ CONSTANTS
   MaxOps = 1000000
   MaxCrash = 1000000
   MaxFail = 1000000
-  SwitchFaithful = TRUE
-  ClosePatient = TRUE
-  TrimMayFail = FALSE
+  Relaxed = {}
 INVARIANTS ConformNote ConformRet ConformDisk ConformMem ConformDown AtMostOnceForward AtMostOneResponse RestartExact OpenedConsistent OpenedSubsetPending OneRecordPerKey OneCircuitPerOut MemDiskAgree ClosedSubset
 CHECK_DEADLOCK TRUE
